@@ -8,7 +8,7 @@ git -C /repo worktree add --detach "$WT" HEAD -q || exit 2
 grep "^fixed:" known_findings.txt | awk '{print $2, $3}' | sed 's/property=//' | while read prop c; do
   git -C "$WT" checkout -q -- .
   if git -C /repo show "$c" | git -C "$WT" apply -R 2>/dev/null; then
-    out=$(ADLT_REPO="$WT" VERIF_KANI_FALLBACK=0 ./check "$prop" 2>&1)
+    out=$(ADLT_REPO="$WT" VERIF_KANI_FALLBACK=0 VERIF_NO_EVIDENCE=1 ./check "$prop" 2>&1)
     echo "$prop $c -> $(echo "$out" | grep -E '^C[0-9]+:' | cut -d' ' -f2) ($(echo "$out" | grep -c '^VIOLATION') violation lines: $(echo "$out" | grep '^VIOLATION' | sed 's/.*obligation=\([^ ]*\).*/\1/' | tr '\n' ' '))"
   else
     echo "$prop $c -> the reverse patch no longer applies to HEAD (later fixes touch the same lines)"
